@@ -67,6 +67,11 @@ def witness_search(tier, seed):
              "stray\n#VERSION:0.83;#TITLE:t;//c\n#NOTEDATA:;#credit:;#NOTES:0000;#AFTER:x;#NOTEDATA:;#NOTES2:11;",
              "#A:1\n#B:2;", "#ATTACKS;", "#VERSION:1;#NOTEDATA:;#ATTACKS:a:b;#DISPLAYBPM;#NOTES:;",
              "#VERSION:0.83;#NOTEDATA:;#STEPSTYPE:x;#NOTES2:0001;#CREDIT:c;#NOTES:1000;#NOTEDATA:;#NOTES2:11;#AFTER:z;"]
+    # values that need MSD escapes (backslash, ':' ';' and '//' inside note data and ordinary values), written by msdparser itself
+    from msdparser import MSDParameter
+    esc = "dr\\ums:k;i//ck"
+    texts.append("#VERSION:0.83;#TITLE:t;" + str(MSDParameter(("NOTEDATA", ""))) + str(MSDParameter(("CREDIT", esc))) + str(MSDParameter(("NOTES", "0000\n" + esc))) + "\n")
+    texts.append("#TITLE:t;#SUBTITLE" + str(MSDParameter(("X", esc)))[2:] + str(MSDParameter(("NOTES", "dance-single", "d", "Easy", "1", "0,0,0,0,0", "0000\n" + esc))) + "\n")
     for path in sorted(glob.glob("/repo/testdata/**/*.s*", recursive=True)):
         try:
             texts.append(open(path, encoding="utf-8").read())
